@@ -195,12 +195,12 @@ func gen(w *kit.Out, r *kit.Rand, tier string) {
 	}
 
 	if thorough {
-		// ---- 4. every durable step of the genesis start and of heights 1..3 (one tx, possibly two parts)
-		txs = []txSpec{randTx(r, r.Chance(40))}
+		// ---- 4. every durable step of the genesis start and of heights 1..5 (two txs, possibly two parts)
+		txs = []txSpec{randTx(r, r.Chance(40)), randTx(r, false)}
 		w.Case("all-points")
 		w.Op("%s", scriptLine(txs, nil))
 		all := genesisPoints()
-		for h := 1; h <= 3; h++ {
+		for h := 1; h <= 5; h++ {
 			all = append(all, points(h, txAt(txs, h), 0)...)
 		}
 		for _, p := range all {
@@ -231,6 +231,18 @@ func gen(w *kit.Out, r *kit.Rand, tier string) {
 		}
 	}
 
+	// ---- 7. a WAL record torn by the kill, then a second kill in the same height (known finding)
+	nt := 1
+	if thorough {
+		nt = 4
+	}
+	for i := 0; i < nt; i++ {
+		txs = []txSpec{randTx(r, false)}
+		w.Case(fmt.Sprintf("torn-%d", i))
+		w.Op("%s", scriptLine(txs, nil))
+		w.Op("tear %d %s", 2+r.Intn(2), kit.Pick(r, []string{"wP", "wB", "wV", "wC"}))
+	}
+
 	// ---- malformed stream
 	w.Case("malformed")
 	w.Op("crash cs 1 pvP")
@@ -247,6 +259,9 @@ func gen(w *kit.Out, r *kit.Rand, tier string) {
 	w.Op("crash cs 1 nosuch")
 	w.Op("events zz 1")
 	w.Op("events cs 99")
+	w.Op("tear 2 bsH")
+	w.Op("tear 2")
+	w.Op("tear 9 wP")
 	w.Op("mix 9 9 9")
 	w.Op("mix 1 1")
 	w.Op("back x")
